@@ -298,6 +298,9 @@ func (e *Exec) unbox(x *Term, t types.Type, pc *Term) Value {
 // render gives a source-like, renaming-tolerant description of an SSA value,
 // used in obligation names.
 func render(v ssa.Value, depth int) string {
+	if v == nil {
+		return "_"
+	}
 	if depth > 4 {
 		return "_"
 	}
